@@ -615,7 +615,18 @@ def check_helpers_released(ck: Checker, rid: str):
                 starts = [n for n in cfg.nodes if header_expr(n) is not None and any(method_of(c)[1] == 'start' and is_name(method_of(c)[0], handle) for c in calls_in(header_expr(n)))]
             else:
                 starts = [n for n in cfg.nodes if isinstance(n.ast, ast.Assign) and n.ast.value is sp.call]
-            joins = {n.id for n in cfg.nodes if header_expr(n) is not None and (any(method_of(c)[1] == 'join' and is_name(method_of(c)[0], handle) for c in calls_in(header_expr(n))) or any(isinstance(x, ast.Await) and is_name(x.value, handle) for x in walk_shallow(header_expr(n))))}
+            def _waits(c, n):
+                # a timed join returns silently with the thread still running (mpservice.threading.Thread.join included):
+                # it counts only inside a loop that re-tests is_alive()
+                if not (c.args or c.keywords) or (len(c.args) == 1 and not c.keywords and isinstance(c.args[0], ast.Constant) and c.args[0].value is None):
+                    return True
+                return any(cfg.nodes[l].kind == 'while' and 'is_alive' in norm_text(cfg.nodes[l].ast.test if hasattr(cfg.nodes[l].ast, 'test') else cfg.nodes[l].ast) for l in n.loops)
+
+            timed = [n for n in cfg.nodes if header_expr(n) is not None and any(method_of(c)[1] == 'join' and is_name(method_of(c)[0], handle) and not _waits(c, n) for c in calls_in(header_expr(n)))]
+            joins = {n.id for n in cfg.nodes if header_expr(n) is not None and (any(method_of(c)[1] == 'join' and is_name(method_of(c)[0], handle) and _waits(c, n) for c in calls_in(header_expr(n))) or any(isinstance(x, ast.Await) and is_name(x.value, handle) for x in walk_shallow(header_expr(n))))}
+            if timed and not joins:
+                ck.ob(rid, f, timed[0].ast, False, f'L{timed[0].lineno}: `{norm_text(timed[0].ast)[:50]}` is a timed join of helper `{handle}`: when the helper has not ended by then (a slow source element) the generator is closed with the thread still running and still pulling the source')
+                continue
             ok = bool(starts) and bool(joins)
             pth = None
             if ok:
@@ -751,6 +762,10 @@ def run(ck: Checker):
     from .c08 import check_pool_release_semantics
 
     check_pool_release_semantics(ck, 'C05-11')
+    from . import c12 as _c12
+
+    with ck.as_rule('C05-12', 'join() of a helper thread means the thread has ended: the join of mpservice.threading.Thread (which the stream generators use for their feeders and workers) returns normally only after the OS-level join — an outcome that is already known is no reason to skip it (the C12-4 obligations of the accessors)', minimum=3):
+        _c12.check_accessors(ck, 'C12-4')
     ck.rule('C05-7', 'no source pull is in flight while a stream generator is suspended: the sync-to-async adapter awaits each `run_in_executor(None, next, source)` in the statement that starts it — a pull started ahead of the consumer\'s request is still running in a helper thread after an early stop (one element is taken and lost, the source generator cannot be closed, the default executor cannot shut down)')
     check_no_prefetch(ck, 'C05-7')
     ck.rule('C05-8', 'the hand-off queue cannot lose a wake-up: the SingleLane obligations (C01-4, C09-6) decided here, because a lost wake-up leaves the producer parked in put() while the finaliser of buffer / fifo_stream waits for it for ever', minimum=3)
